@@ -67,6 +67,46 @@ def mk_evt(L, H, enc_method, proc_method, thetas):
     return et, block, proc, [f2, f_sys]
 
 
+def rand_unitary(rng, d):
+    a = np.array([[complex(rng.gauss(0, 1), rng.gauss(0, 1)) for _ in range(d)] for _ in range(d)])
+    q, r = np.linalg.qr(a)
+    return q * (np.diag(r) / np.abs(np.diag(r)))
+
+
+def mk_evt_multi(nenc, L, V, proc_method, thetas):
+    """eigenvalue transformation around a user-defined block encoding with nenc >= 2 encoding qubits
+    (a GeneralGate with the three attributes EigenvalueTransformation reads), so that the cascaded
+    c-phase / the (nenc)-fold controlled X are exercised INSIDE the eigenvalue transformation"""
+    import qib
+
+    class MultiEnc(qib.operator.GeneralGate):
+        def __init__(self, mat, enc, sysq):
+            super().__init__(mat, len(enc) + len(sysq))
+            self.auxiliary_qubits, self.sysq = list(enc), list(sysq)
+            self.on(self.auxiliary_qubits + self.sysq)
+
+        @property
+        def num_aux_qubits(self):
+            return len(self.auxiliary_qubits)
+
+        def set_auxiliary_qubits(self, q):
+            self.auxiliary_qubits = list(q) if isinstance(q, (list, tuple)) else [q]
+            self.on(self.auxiliary_qubits + self.sysq)
+
+        def inverse(self):
+            return MultiEnc(self.mat.conj().T, self.auxiliary_qubits, self.sysq)
+
+    f_sys = qib.field.Field(qib.field.ParticleType.QUBIT, qib.lattice.IntegerLattice((L,), pbc=False))
+    f2 = qib.field.Field(qib.field.ParticleType.QUBIT, qib.lattice.IntegerLattice((1 + nenc,), pbc=False))
+    q_anc = qib.field.Qubit(f2, 0)
+    q_enc = [qib.field.Qubit(f2, 1 + j) for j in range(nenc)]
+    q_sys = [qib.field.Qubit(f_sys, j) for j in range(L)]
+    block = MultiEnc(V, q_enc, q_sys)
+    proc = qib.algorithms.qubitization.ProjectorControlledPhaseShift(0., nenc * [0], q_enc, q_anc, proc_method)
+    et = qib.algorithms.qubitization.EigenvalueTransformation(block, proc, theta_seq=list(thetas))
+    return et, block, proc, [f2, f_sys]
+
+
 def rand_herm(rng, L):
     d = 2 ** L
     a = np.array([[complex(rng.gauss(0, 1), rng.gauss(0, 1)) for _ in range(d)] for _ in range(d)])
@@ -123,14 +163,20 @@ def evt_letters(et, block, proc, thetas):
     """gate list of as_circuit() as letters, first applied first: ('P', k) / ('U', inv)"""
     import qib
     circ = et.as_circuit()
-    base = block.method
+    general = type(block) is not qib.operator.BlockEncodingGate
+    base = None if general else block.method
     groups, cur = [], []
     for g in circ.gates:
-        if type(g) is qib.operator.BlockEncodingGate:
+        if type(g) is qib.operator.BlockEncodingGate or (general and isinstance(g, qib.operator.GeneralGate)):
             if cur:
                 groups.append(("P", cur))
                 cur = []
-            groups.append(("U", g.method != base))
+            if general:
+                U = np.asarray(block.as_matrix())
+                is_u, is_ui = np.allclose(g.as_matrix(), U), np.allclose(g.as_matrix(), U.conj().T)
+                groups.append(("U", True if (is_ui and not is_u) else (False if is_u else None)))
+            else:
+                groups.append(("U", g.method != base))
         else:
             cur.append(g)
     if cur:
@@ -142,7 +188,7 @@ def evt_letters(et, block, proc, thetas):
     out = []
     for kind, v in groups:
         if kind == "U":
-            out.append(("U", bool(v)))
+            out.append(("U", v if v is None else bool(v)))
         else:
             keys = [gate_key(g) for g in v]
             ks = [k for k, r in enumerate(refs) if r == keys]
@@ -189,17 +235,24 @@ def oracle_phase(ctx, n, method, theta):
     return proc, fields, circ, M
 
 
-def oracle_evt(ctx, L, H, enc_method, proc_method, thetas):
-    et, block, proc, fields = mk_evt(L, H, enc_method, proc_method, thetas)
+def oracle_evt(ctx, L, H, enc_method, proc_method, thetas, nenc=1, V=None):
+    """H: encoded Hamiltonian (library block encodings, one encoding qubit)  or
+    V: a unitary on nenc + L qubits used as a user-defined block encoding with nenc encoding qubits"""
+    if V is None:
+        et, block, proc, fields = mk_evt(L, H, enc_method, proc_method, thetas)
+        inp = {"kind": "evt", "L": L, "H": cplx_list(H), "enc_method": enc_method, "proc_method": proc_method,
+               "thetas": list(thetas)}
+    else:
+        et, block, proc, fields = mk_evt_multi(nenc, L, V, proc_method, thetas)
+        inp = {"kind": "evt", "L": L, "V": cplx_list(V), "nenc": nenc, "enc_method": "general", "proc_method": proc_method,
+               "thetas": list(thetas)}
     n = len(thetas)
-    inp = {"kind": "evt", "L": L, "H": cplx_list(H), "enc_method": enc_method, "proc_method": proc_method,
-           "thetas": list(thetas)}
     cls = "len=1" if n == 1 else ("odd len>=3" if n % 2 else ("len=2" if n == 2 else "even len>=4"))
     M = np.asarray(et.as_matrix())
     U = np.asarray(block.as_matrix())
     Ui = np.linalg.inv(U)
     idL = np.identity(2 ** L)
-    P = [np.kron(shift_ref(1, th), idL) for th in thetas]
+    P = [np.kron(shift_ref(nenc, th), idL) for th in thetas]
     ref = alt_product(P, U, Ui, n)
     if M.shape != ref.shape or not np.allclose(M, ref, atol=1e-8):
         ctx.fail("evt:as_matrix != alternating product P(th0) U^-+ ... P(th_last) U (%s)" % cls, inp,
@@ -218,10 +271,14 @@ def oracle_evt(ctx, L, H, enc_method, proc_method, thetas):
     letters, circ, nblock = evt_letters(et, block, proc, thetas)
     if nblock != n:
         ctx.fail("evt:as_circuit applies the encoding %s len(angles) times (%s)" % ("<" if nblock < n else ">", cls), inp, n, nblock)
+    if any(k == "U" and v is None for k, v in letters):
+        ctx.fail("evt:as_circuit contains a gate that is neither the encoding nor its inverse (%s)" % cls, inp)
     C = circ.as_matrix(fields).toarray()
-    d = 2 ** (L + 1)
+    d = 2 ** (L + nenc)
     if not np.allclose(C[:d, :d], M, atol=1e-8):
         ctx.fail("evt:circuit aux-|0> block != as_matrix (%s)" % cls, inp, None, "max dev %.3g" % np.abs(C[:d, :d] - M).max())
+    if not np.allclose(C[:d, :d], ref, atol=1e-8):
+        ctx.fail("evt:circuit aux-|0> block != alternating product (%s)" % cls, inp, None, "max dev %.3g" % np.abs(C[:d, :d] - ref).max())
     if not np.allclose(C[d:2 * d, :d], 0, atol=1e-8):
         ctx.fail("evt:circuit leaks out of the aux-|0> block (%s)" % cls, inp)
     return et, block, proc, letters, M, U, Ui
@@ -246,24 +303,40 @@ def model_words(ctx, maxlen):
     return {k + 1: w for k, w in enumerate(ws)}
 
 
+def mono_cols(M):
+    """columns of a monomial matrix as Coq pairs (row of the non-zero entry, entry); a column that is not
+    monomial is encoded with the impossible row 2^w (so the model cannot agree with it)"""
+    d = M.shape[0]
+    cols = []
+    for c in range(d):
+        nz = np.flatnonzero(np.abs(M[:, c]) > 1e-12)
+        if len(nz) == 1:
+            cols.append(ct.pair(ct.nat(int(nz[0])), ct.fi(M[int(nz[0]), c])))
+        else:
+            cols.append(ct.pair(ct.nat(d), ct.fi(0)))
+    return cols
+
+
 def run(ctx):
     import qubitization as gen
+    import qib
     ctx.trusted.append(
         "C19: gate semantics (Rz = diag(e^{-ia/2}, e^{ia/2}), controlled gates active on the listed control bits, "
         "PhaseFactorGate = global phase, multi-controlled X = bit flip; embedding on wires) is the hand-written model "
-        "Qib.Qubitization.QubitModel, tied by correspondence (gate lists exactly, matrices with tolerance 2^-38); "
+        "Qib.Qubitization.QubitModel, tied by correspondence (gate lists exactly; the matrix of every single gate and of "
+        "every whole circuit with tolerance 2^-38); "
         "loop bounds, index expressions, angle coefficients, the U / U^-1 pattern and the prepend order are regenerated "
-        "from the source; exp(i k x) = exp(i x)^k for integer k; expm of a diagonal matrix = diagonal of exps "
+        "from the source; np.exp(1j*x) = cos x + i sin x (theorems *_complex; the theorems over an abstract ring use any "
+        "*-homomorphism q -> exp(i q theta), resp. powers of a unit-modulus u); expm of a diagonal matrix = diagonal of exps "
         "(ProjectorControlledPhaseShift.as_matrix is checked numerically only); BlockEncodingGate.inverse() is the "
-        "inverse matrix (C03) - the oracle uses numpy.linalg.inv of the implementation's own matrix")
-    ctx.assumes.append("the block encoding has exactly one auxiliary qubit (all three methods), so the eigenvalue "
-                       "transformation always has one encoding qubit; projection state all zeros (the only one as_circuit accepts)")
-    nmax = 6 if ctx.thorough else 4
-    lmax = 12 if ctx.thorough else 9
-    ctx.rules.append("phase shift: n = 1..%d encoding qubits (numpy oracles up to 7, 9 when an obligation is broken) x both methods x random dyadic angles; eigenvalue transformation: "
-                     "lengths 1..%d x {Wx, Wxi, R} x {c-phase, auxiliary} x random Hermitian H (||H|| < 1) on 1-2 system qubits "
-                     "with distinct random angles. non-trivial = theta != 0 and (n >= 2 or an EVT case)" % (nmax, lmax))
-    ctx.lib(["Qubitization/QubitCheck", "Qubitization/EvtProofs"])
+        "inverse matrix (C03) - the theorems hold for ANY pair of matrices U, Ui; the oracle uses numpy.linalg.inv of the "
+        "implementation's own matrix; Circuit.as_matrix multiplies the gate matrices, first gate rightmost (C05)")
+    ctx.assumes.append("qib's block encodings have exactly one auxiliary qubit (all three methods), so with them the eigenvalue "
+                       "transformation has one encoding qubit (the theorems are for any number; the harness also runs a "
+                       "user-defined block encoding with 2-3 encoding qubits); projection state all zeros (the only one as_circuit accepts)")
+    nmax = 8 if ctx.thorough else 4          # Coq correspondence: number of encoding qubits
+    lmax = 24 if ctx.thorough else 9         # Coq correspondence: number of angles
+    ctx.lib(["Qubitization/QubitCheck", "Qubitization/EvtProofs", "Qubitization/QubitReal"])
     ok_tr = ctx.translate("GenQubitization", gen.generate)
     if ok_tr:
         ctx.props()
@@ -274,23 +347,51 @@ def run(ctx):
     cases = []
     # a broken obligation widens the oracle sweeps (to turn the breakage into a failing input)
     deep = ctx.thorough or bool(ctx.broken)
-    nor = 9 if deep else 7          # oracle range for the number of encoding qubits
-    lor = 16 if deep else lmax      # oracle range for the number of angles
+    nor = 10 if deep else 7          # oracle range for the number of encoding qubits
+    lor = 32 if deep else lmax       # oracle range for the number of angles
+    ctx.rules.append("phase shift: n = 1..%d encoding qubits (numpy oracles up to %d; 10 when an obligation is broken) x both methods x "
+                     "random dyadic angles of both signs (model cases: gate list, every single gate's matrix, circuit matrix) + "
+                     "non-dyadic / zero / large angles (numpy oracles only); eigenvalue transformation: "
+                     "lengths 1..%d (oracles up to %d) x {Wx, Wxi, R} x {c-phase, auxiliary} x random complex Hermitian H (||H|| < 1) on 1-%d system qubits "
+                     "with distinct random angles, + a user-defined block encoding with 2-3 encoding qubits. "
+                     "non-trivial = theta != 0 and (n >= 2 or an EVT case); distinct by the full input"
+                     % (nmax, nor, lmax, lor, 3 if ctx.thorough else 2))
+
+    sampled = set()
 
     def add(term, desc, nontrivial=True):
         cases.append((term, desc))
         if nontrivial:
             ctx.nontriv(desc)
-        ctx.sample(desc)
+            # evidence samples: one non-trivial case per kind of comparison
+            cat = (desc["op"], desc.get("enc") == "general")
+            if cat not in sampled and len(sampled) < 6 and desc.get("n", desc.get("len", 0)) >= 3:
+                sampled.add(cat)
+                ctx.sample(desc)
+
+    def oracle_only(desc, nontrivial):
+        """an input on which only the numpy oracles ran (no exact model case)"""
+        ctx.evaluations += 1
+        if nontrivial:
+            ctx.nontriv(dict(desc, op="oracle"))
 
     def dyadic():
         v = rng.randint(1, 511) / 128.0
         return v if rng.random() < 0.7 else -v
 
+    def distinct_angles(n):
+        thetas = []
+        while len(thetas) < n:
+            t = dyadic()
+            if all(abs(t - s) > 1e-9 for s in thetas):
+                thetas.append(t)
+        return thetas
+
     # ---------------------------------------------------------------- phase shift circuits
+    reps = 12 if ctx.thorough else 4
     for n in range(1, nor + 1):
         for method in ("c-phase", "auxiliary"):
-            for rep in range((8 if ctx.thorough else 4) if n <= nmax else 1):
+            for rep in range(reps if n <= nmax else 2):
                 theta = dyadic()
                 ctx.count("phase_%s_n=%d" % (method, n))
                 try:
@@ -300,8 +401,8 @@ def run(ctx):
                              "a circuit", repr(e))
                     continue
                 desc = {"kind": "phase", "n": n, "method": method, "theta": theta}
-                ctx.nontriv(dict(desc, op="oracle"))
                 if n > nmax:
+                    oracle_only(desc, True)
                     continue
                 aux = method == "auxiliary"
                 terms = [gate_term(g, fields, theta) for g in circ.gates]
@@ -312,17 +413,36 @@ def run(ctx):
                 add("CGates %s %s %s" % (ct.b(aux), ct.nat(n), ct.lst(terms)), dict(desc, op="gate list"), n >= 2)
                 # matrix, column by column
                 w = n + (1 if aux else 0)
-                cols = []
-                for c in range(2 ** w):
-                    nz = [r for r in range(2 ** w) if abs(M[r, c]) > 1e-12]
-                    if len(nz) == 1:
-                        cols.append(ct.pair(ct.nat(nz[0]), ct.fi(M[nz[0], c])))
-                    else:
-                        cols.append(ct.pair(ct.nat(2 ** w), ct.fi(0)))
                 md = 0 if aux else n - 1
                 u = np.exp(1j * theta / 2 ** md)
-                add("CMono %s %s %s %s %s" % (ct.b(aux), ct.nat(n), ct.z(md), ct.fi(u), ct.lst(cols)),
+                add("CMono %s %s %s %s %s" % (ct.b(aux), ct.nat(n), ct.z(md), ct.fi(u), ct.lst(mono_cols(M))),
                     dict(desc, op="circuit matrix"), n >= 2)
+                # every single gate: the matrix of a circuit consisting of that gate alone
+                if rep < 2 and n <= 6:
+                    for k, (g, t) in enumerate(zip(circ.gates, terms)):
+                        try:
+                            c1 = qib.Circuit()
+                            c1.append_gate(g)
+                            G = c1.as_matrix(fields).toarray()
+                        except Exception as e:
+                            ctx.fail("phase-shift:exception:" + type(e).__name__, dict(desc, gate=k), "the matrix of one gate", repr(e))
+                            continue
+                        ctx.count("single_gate_%s" % t.split()[0])
+                        add("CGateMx %s %s %s (%s) %s" % (ct.nat(w), ct.z(md), ct.fi(u), t, ct.lst(mono_cols(G))),
+                            dict(desc, op="single gate matrix", gate=k, term=t.split()[0]), n >= 2)
+    # angles that are not dyadic (no exact model case: numpy oracles only), zero, tiny, many turns
+    specials = [0.0, math.pi / 3, -1e-3, 7.25 * math.pi, -math.pi, 1e-9]
+    for n in range(1, (8 if deep else 6) + 1):
+        for method in ("c-phase", "auxiliary"):
+            for theta in specials + [rng.uniform(-7, 7) for _ in range(4 if ctx.thorough else 2)]:
+                ctx.count("phase_oracle_only_%s" % method)
+                try:
+                    oracle_phase(ctx, n, method, theta)
+                except Exception as e:
+                    ctx.fail("phase-shift:exception:" + type(e).__name__, {"kind": "phase", "n": n, "method": method, "theta": theta},
+                             "a circuit", repr(e))
+                    continue
+                oracle_only({"kind": "phase", "n": n, "method": method, "theta": theta}, n >= 2 and theta != 0)
 
     # ---------------------------------------------------------------- eigenvalue transformation
     words = model_words(ctx, lmax) if ok_tr else None
@@ -330,19 +450,32 @@ def run(ctx):
         ctx.oblige("correspondence:evt-model-words", "correspondence", False, "could not evaluate the model words")
     word_bad = []
     nword = 0
+
+    def word_product(wd, n, proc, block, U, thetas, nenc, L):
+        idL = np.identity(2 ** L)
+        prod = np.identity(2 ** (L + nenc), dtype=complex)
+        for code in wd:
+            if code >= n:
+                prod = prod * np.nan
+            elif code >= 0:
+                proc.set_theta(thetas[code])
+                prod = prod @ np.kron(np.asarray(proc.as_matrix()), idL)
+            else:
+                prod = prod @ (np.asarray(block.inverse().as_matrix()) if code == -2 else U)
+        return prod
+
     for n in range(1, lor + 1):
         for enc_method in ("Wx", "Wxi", "R"):
             for proc_method in ("c-phase", "auxiliary"):
-                for rep in range(2 if ctx.thorough else 1):
+                for rep in range((3 if n <= lmax else 1) if ctx.thorough else 1):
                     L = rng.choice([1, 2, 2, 3]) if ctx.thorough else rng.choice([1, 2])
                     H = rand_herm(rng, L)
-                    thetas = []
-                    while len(thetas) < n:
-                        t = dyadic()
-                        if all(abs(t - s) > 1e-9 for s in thetas):
-                            thetas.append(t)
+                    thetas = distinct_angles(n)
+                    if rep == 2:      # non-dyadic angles (the letter comparison does not need exact angles)
+                        thetas = [t + rng.uniform(-0.003, 0.003) for t in thetas]
                     ctx.count("evt_len=%d" % n)
                     ctx.count("evt_%s_%s" % (enc_method, proc_method))
+                    ctx.count("evt_L=%d" % L)
                     desc = {"kind": "evt", "len": n, "L": L, "enc": enc_method, "proc": proc_method, "thetas": thetas}
                     try:
                         et, block, proc, letters, M, U, Ui = oracle_evt(ctx, L, H, enc_method, proc_method, thetas)
@@ -352,21 +485,42 @@ def run(ctx):
                                   "proc_method": proc_method, "thetas": thetas}, "a matrix and a circuit", repr(e))
                         continue
                     if n > lmax:
+                        oracle_only(desc, True)
                         continue
                     add("CEvtCirc %s %s %s" % (ct.z(n), ct.b(enc_method == "R"), letters_term(letters)),
                         dict(desc, op="as_circuit gate groups"))
                     # as_matrix against the product along the model's word, with the implementation's own factors
                     if words is not None:
-                        idL = np.identity(2 ** L)
-                        prod = np.identity(2 ** (L + 1), dtype=complex)
-                        for code in words[n]:
-                            if code >= n:
-                                prod = prod * np.nan
-                            elif code >= 0:
-                                proc.set_theta(thetas[code])
-                                prod = prod @ np.kron(np.asarray(proc.as_matrix()), idL)
-                            else:
-                                prod = prod @ (np.asarray(block.inverse().as_matrix()) if code == -2 else U)
+                        prod = word_product(words[n], n, proc, block, U, thetas, 1, L)
+                        nword += 1
+                        ctx.nontriv(dict(desc, op="as_matrix vs model word"))
+                        if not np.allclose(prod, M, atol=1e-8):
+                            word_bad.append(desc)
+    # a user-defined block encoding with several encoding qubits: the cascaded c-phase circuit / the n-fold
+    # controlled X inside the eigenvalue transformation, np.kron(phase shift on n qubits, identity)
+    mlen = 10 if ctx.thorough else 6
+    for n in range(1, mlen + 1):
+        for nenc in (2, 3):
+            for proc_method in ("c-phase", "auxiliary"):
+                for rep in range(2 if ctx.thorough else 1):
+                    L = rng.choice([1, 2])
+                    V = rand_unitary(rng, 2 ** (nenc + L))
+                    thetas = distinct_angles(n)
+                    ctx.count("evt_general_nenc=%d" % nenc)
+                    ctx.count("evt_len=%d" % n)
+                    desc = {"kind": "evt", "len": n, "L": L, "enc": "general", "nenc": nenc, "proc": proc_method, "thetas": thetas}
+                    try:
+                        et, block, proc, letters, M, U, Ui = oracle_evt(ctx, L, None, "general", proc_method, thetas, nenc=nenc, V=V)
+                    except Exception as e:
+                        ctx.fail("evt:exception:" + type(e).__name__,
+                                 {"kind": "evt", "L": L, "V": cplx_list(V), "nenc": nenc, "enc_method": "general",
+                                  "proc_method": proc_method, "thetas": thetas}, "a matrix and a circuit", repr(e))
+                        continue
+                    if any(v is None for k, v in letters):
+                        continue
+                    add("CEvtCirc %s false %s" % (ct.z(n), letters_term(letters)), dict(desc, op="as_circuit gate groups"))
+                    if words is not None:
+                        prod = word_product(words[n], n, proc, block, U, thetas, nenc, L)
                         nword += 1
                         ctx.nontriv(dict(desc, op="as_matrix vs model word"))
                         if not np.allclose(prod, M, atol=1e-8):
@@ -382,6 +536,8 @@ def run(ctx):
         dis = ctx.cases("qubitization", HEADER, cases, fn="bad_cases gen_cphase gen_aux gen_evt_circ")
         for i, d in dis[:5]:
             ctx.log("model/impl disagree on", d)
+        if ctx.thorough and not ctx.broken:
+            ctx.coqchk()
 
 
 def replay(ctx, data):
@@ -390,7 +546,10 @@ def replay(ctx, data):
     if inp.get("kind") == "phase":
         oracle_phase(ctx, inp["n"], inp["method"], inp["theta"])
     elif inp.get("kind") == "evt":
-        oracle_evt(ctx, inp["L"], from_cplx_list(inp["H"]), inp["enc_method"], inp["proc_method"], inp["thetas"])
+        if "V" in inp:
+            oracle_evt(ctx, inp["L"], None, "general", inp["proc_method"], inp["thetas"], nenc=inp["nenc"], V=from_cplx_list(inp["V"]))
+        else:
+            oracle_evt(ctx, inp["L"], from_cplx_list(inp["H"]), inp["enc_method"], inp["proc_method"], inp["thetas"])
     # report under the recorded signature only
     hit = [f for f in ctx.failing[before:]]
     ctx.failing[before:] = []
